@@ -83,6 +83,7 @@ func roundTripL(s *cases.Set, p lorawan.PHYPayload, kind string, foptsLen int) {
 		}
 	}
 	rp := map[string]interface{}{"api": "PHYPayload.MarshalBinary / UnmarshalBinary", "frame": t}
+	textCase(s, p, kind, t)
 	s.Add(cases.Case{Term: fmt.Sprintf("CRoundTrip %s %s %s", t, oenc, odec), Key: "rt:" + kind + ":" + t, Kind: kind, Nontrivial: true, Replay: rp})
 	s.Remember("rt:"+kind+":"+t, oenc+" "+odec, rp, func() string {
 		b, oenc := marshal(p)
@@ -92,6 +93,39 @@ func roundTripL(s *cases.Set, p lorawan.PHYPayload, kind string, foptsLen int) {
 		}
 		return oenc + " " + odec
 	})
+}
+
+// textCase: MarshalText / UnmarshalText against the base64 model (Text/Base64.v)
+func textCase(s *cases.Set, p lorawan.PHYPayload, kind, t string) {
+	otxt, odec := cq.Err, cq.Err
+	func() {
+		defer func() {
+			if r := recover(); r != nil {
+				otxt = cq.Panic
+			}
+		}()
+		txt, err := p.MarshalText()
+		if err != nil {
+			return
+		}
+		otxt = cq.Ok(cq.Bytes(txt))
+		func() {
+			defer func() {
+				if r := recover(); r != nil {
+					odec = cq.Panic
+				}
+			}()
+			var q lorawan.PHYPayload
+			if err := q.UnmarshalText(append([]byte{}, txt...)); err == nil {
+				var wire []byte
+				if wire, err = base64.StdEncoding.DecodeString(string(txt)); err == nil {
+					odec = cq.Ok(framefmt.Phy(q, framefmt.DecodedFOptsLen(wire)))
+				}
+			}
+		}()
+	}()
+	s.Add(cases.Case{Term: fmt.Sprintf("CText %s %s %s", t, otxt, odec), Key: "text:" + kind + ":" + t, Kind: "text-" + kind, Nontrivial: true,
+		Replay: map[string]interface{}{"api": "PHYPayload.MarshalText / UnmarshalText", "frame": t}})
 }
 
 func joinAccept(s *cases.Set, ja *lorawan.JoinAcceptPayload, kind string) {
